@@ -349,11 +349,11 @@ def predsLoop (v : Term) (name : String) (args : List Term) :
     else predsLoop v name args aps ti
 
 /-- `_get_trigger(minimize_var, body)`: (index of the literal in `body`, trigger_index, annotated predicate).
-A conditional literal ends the search; the SIGN of the literal is not looked at. -/
+A conditional literal ends the search; only POSITIVE literals are looked at (fix 49543fa, known_findings.json `fixed:`). -/
 def getTrigger (atmost : List APred) (v : Term) : List BLit → Nat → Except String (Option (Nat × Nat × APred))
   | [], _ => pure none
   | .clit _ :: _, _ => pure none
-  | .lit (_, .sym (.fn name args _)) :: rest, idx => do
+  | .lit (.pos, .sym (.fn name args _)) :: rest, idx => do
     match ← predsLoop v name args atmost none with
     | some (i, ap) => pure (some (idx, i, ap))
     | none => getTrigger atmost v rest (idx + 1)
@@ -374,32 +374,43 @@ structure ElemHit where
 With `inPlace` a rewritten element is marked as mutated for the elements after it (what `execute` does);
 without it every element is judged against the untouched aggregate.
 Returns the hits and the indices of the elements that are DROPPED (empty tuple: neither branch appends). -/
-def elementsLoop (atmost : List APred) (inPlace : Bool) :
+def elementsLoop (atmost : List APred) (inPlace : Bool) (outside : List String) :
     List (Nat × BAggElem) → List Slot → Except String (List ElemHit × List Nat)
   | [], _ => pure ([], [])
   | (i, elem) :: todo, slots =>
     match elem.1 with
     | [] => do
       -- `if elem.terms and len(elem.terms) > 0` has no else branch
-      let (hs, ds) ← elementsLoop atmost inPlace todo slots
+      let (hs, ds) ← elementsLoop atmost inPlace outside todo slots
       pure (hs, i :: ds)
     | w :: _ => do
       let passes ← elementPasses elem slots
-      if !passes then elementsLoop atmost inPlace todo slots
+      -- fix b5d2d20 (known_findings.json `fixed:`): a weight that is also used outside of the aggregate is left alone
+      let glob := match w with
+        | .var v => outside.contains v
+        | _ => false
+      if !passes || glob then elementsLoop atmost inPlace outside todo slots
       else
         let trigger ← getTrigger atmost w (elem.2.map BLit.lit) 0
         match trigger with
-        | none => elementsLoop atmost inPlace todo slots
+        | none => elementsLoop atmost inPlace outside todo slots
         | some (l, p, ap) =>
           let slots' := if inPlace then
               (List.range slots.length).zip slots |>.map fun (j, s) => if j == i then (s.1, true) else s
             else slots
-          let (hs, ds) ← elementsLoop atmost inPlace todo slots'
+          let (hs, ds) ← elementsLoop atmost inPlace outside todo slots'
           pure (⟨i, l, p, ap⟩ :: hs, ds)
 
-def replaceElements (atmost : List APred) (inPlace : Bool) (elements : List BAggElem) :
+def replaceElements (atmost : List APred) (inPlace : Bool) (outside : List String) (elements : List BAggElem) :
     Except String (List ElemHit × List Nat) :=
-  elementsLoop atmost inPlace ((List.range elements.length).zip elements) (elements.map fun e => (e, false))
+  elementsLoop atmost inPlace outside ((List.range elements.length).zip elements) (elements.map fun e => (e, false))
+
+/-- `collect_ast(stm.update(body=[x for x in stm.body if x != blit]), "Variable")` as names -/
+def outsideVars (stm : Stm) (blit : BLit) : List String :=
+  match stm with
+  | .rule l c h b => (Stm.rule l c h (b.filter fun x => stripBLit x != stripBLit blit)).vars
+  | .minimize l c w p ts b => (Stm.minimize l c w p ts (b.filter fun x => stripBLit x != stripBLit blit)).vars
+  | s => s.vars
 
 /-- the body literals `execute` hands to `_replace_elements`: (index in the body, elements) -/
 def sumAggregates (body : List BLit) : List (Nat × List BAggElem) :=
@@ -415,9 +426,12 @@ structure AggDecision where
   dropped : List Nat
   deriving Repr, Inhabited
 
-def bodyDecisions (atmost : List APred) (inPlace : Bool) (body : List BLit) : Except String (List AggDecision) :=
+def bodyDecisions (atmost : List APred) (inPlace : Bool) (stm : Stm) (body : List BLit) : Except String (List AggDecision) :=
   (sumAggregates body).mapM fun (i, elems) => do
-    let (hs, ds) ← replaceElements atmost inPlace elems
+    let outside := match body[i]? with
+      | some blit => outsideVars stm blit
+      | none => []
+    let (hs, ds) ← replaceElements atmost inPlace outside elems
     pure ⟨i, hs, ds⟩
 
 /-! ## C5. objectives -/
@@ -502,11 +516,11 @@ def decisions (prg : Prog) (inputs : List Pred) (inPlace : Bool) : Except String
     | (i, stm) :: rest => do
       match stm with
       | .rule _ _ _ body =>
-        let aggs ← bodyDecisions atmost inPlace body
+        let aggs ← bodyDecisions atmost inPlace stm body
         let tail ← go rest
         pure (⟨i, aggs, none⟩ :: tail)
       | .minimize _ _ _ _ _ body =>
-        let aggs ← bodyDecisions atmost inPlace body
+        let aggs ← bodyDecisions atmost inPlace stm body
         let changed := inPlace && aggs.any fun a => !a.hits.isEmpty || !a.dropped.isEmpty
         let obj ← objectiveDecision atmost prg stm changed
         let tail ← go rest
